@@ -1187,7 +1187,7 @@ def run(ctx):
     # position with OSError / PicklingError; quick = graphs attrs and arrays, fault positions first / middle / middle of
     # the zip assembly / last (seam-free: first / last). Each of them also gets its own recorded no-fault run whose effect count must equal the
     # reference list (so the numbering used for the injection is the right one for that spelling too).
-    inj_exc = ["OSError", "KeyboardInterrupt"] if ctx.quick else list(INJ_EXC)
+    inj_exc = ["OSError", "KeyboardInterrupt"] if ctx.quick else ["OSError", "RuntimeError", "KeyboardInterrupt"]  # further types: EXC_TYPES sub-lattice below
     poison_exc = ["PicklingError"] if ctx.quick else list(POISON_EXC)
     alt_graphs = [g for g in graphs if g in ("attrs", "arrays")] if ctx.quick else list(graphs)
     ki_graphs = ["attrs", "arrays"] if ctx.quick else list(graphs)
